@@ -25,6 +25,7 @@ import (
 	"io"
 
 	"github.com/ipfs/go-cid"
+	carv2 "github.com/ipld/go-car/v2"
 	"github.com/rpcpool/yellowstone-faithful/compactindexsized"
 	hugecache "github.com/rpcpool/yellowstone-faithful/huge-cache"
 	"github.com/rpcpool/yellowstone-faithful/indexes"
@@ -33,11 +34,10 @@ import (
 const verifC02CarHeader = 11
 
 type verifC02Car struct {
-	a     *verifC02Archive
-	data  []byte
-	off   []uint64 // section offset per node
-	size  []uint64 // section size per node
-	reads int
+	a    *verifC02Archive
+	data []byte
+	off  []uint64 // section offset per node
+	size []uint64 // section size per node
 }
 
 type verifC02CachedObj struct {
@@ -72,7 +72,6 @@ func (a *verifC02Archive) car() *verifC02Car {
 }
 
 func (c *verifC02Car) ReadAt(p []byte, off int64) (int, error) {
-	c.reads++
 	if off < 0 || off > int64(len(c.data)) {
 		return 0, io.EOF
 	}
@@ -126,14 +125,49 @@ func (ser *Epoch) FindOffsetAndSizeFromCid(ctx context.Context, c cid.Cid) (*ind
 
 // c02Model_cachePut is the model of (*hugecache.Cache).PutRawCarObject (engine redirect): every epoch
 // of the model owns a distinct (empty) hugecache.Cache object that identifies its record.
-func c02Model_cachePut(hc *hugecache.Cache, c cid.Cid, data []byte) {
+func c02Model_cachePut(hc *hugecache.Cache, c cid.Cid, data []byte) error {
 	for e, a := range verifC02Archives {
 		if e.allCache == hc {
 			verifC02Cache[a] = append(verifC02Cache[a], verifC02CachedObj{c: c, data: append([]byte{}, data...)})
-			return
+			return nil
 		}
 	}
 	verifFail("C02 model: PutRawCarObject on a cache that belongs to no loaded epoch")
+	return nil
+}
+
+// c02Model_cacheGet is the model of (*hugecache.Cache).GetRawCarObject (engine redirect).
+func c02Model_cacheGet(hc *hugecache.Cache, c cid.Cid) ([]byte, error, bool) {
+	for e, a := range verifC02Archives {
+		if e.allCache == hc {
+			data, ok := verifC02CacheLookup(a, c)
+			return data, nil, ok
+		}
+	}
+	return nil, nil, false
+}
+
+// verifC02UseLocalCar: the epochs read their CAR through the local-file path of
+// (*Epoch).GetNodeByOffsetAndSize (DataReader + Seek + bufio + readNodeWithKnownSize) instead of the
+// ReaderAt path; each epoch owns a distinct (empty) carv2.Reader that identifies its model CAR.
+func verifC02UseLocalCar() {
+	for e := range verifC02Archives {
+		e.localCarReader = &carv2.Reader{}
+		e.remoteCarReader = nil
+	}
+}
+
+// c02Model_carDataReader is the model of (*carv2.Reader).DataReader (engine redirect): a fresh section
+// reader over the bytes of the epoch's model CAR.
+func c02Model_carDataReader(r *carv2.Reader) (carv2.SectionReader, error) {
+	for e, a := range verifC02Archives {
+		if e.localCarReader == r {
+			data := a.car().data
+			return io.NewSectionReader(bytes.NewReader(data), 0, int64(len(data))), nil
+		}
+	}
+	verifFail("C02 model: DataReader on a CAR that belongs to no loaded epoch")
+	return nil, nil
 }
 
 // verifC02CheckCache: every object the prefetch put into an epoch's cache is an object of that
@@ -162,7 +196,7 @@ func VerifC02GrpcBlockPrefetch() {
 		return
 	}
 	verifC02CheckCache("C02.grpcBlockPrefetch")
-	if sc.a.car().reads >= 1 && len(verifC02Cache[sc.a]) >= 1 {
+	if len(verifC02Cache[sc.a]) >= 1 {
 		verifReach("prefetch-cached") // vacuity guard: the closure read the CAR and cached something
 	}
 	verifReach("end")
